@@ -222,6 +222,14 @@ func table(b *abi.Builder, ms []meth) string {
 
 // attrs collects the attributes in which two types differ (a structural walk that mirrors the clauses
 // of the Go spec's type identity); "other" = anything the walk cannot attribute.
+// below a func/struct/interface type argument EVERYTHING is rendered by types.TypeString, nested instances included
+func targPrefix(cur string) string {
+	if cur == "targ-fallback:" {
+		return cur
+	}
+	return "targ:"
+}
+
 type prefixed struct {
 	m   map[string]bool
 	pre string
@@ -350,6 +358,12 @@ func diffAttrs(x, y types.Type, out0 map[string]bool, depth int, pre string) {
 		}
 	case *types.Named:
 		if y, ok := y.(*types.Named); ok {
+			if sx, ok := x.Underlying().(*types.Signature); ok && x.Origin() != y.Origin() {
+				if sy, ok := y.Underlying().(*types.Signature); ok && types.Identical(sx, sy) {
+					out.set("named-func-vs-underlying")
+					return
+				}
+			}
 			if x.Origin() != y.Origin() {
 				if x.Obj().Pkg() == y.Obj().Pkg() && x.Obj().Name() == y.Obj().Name() {
 					out.set("named-decl:same-pkg-and-name")
@@ -359,7 +373,7 @@ func diffAttrs(x, y types.Type, out0 map[string]bool, depth int, pre string) {
 				return
 			}
 			for i := 0; i < x.TypeArgs().Len(); i++ {
-				diffAttrs(x.TypeArgs().At(i), y.TypeArgs().At(i), out0, depth+1, "targ:")
+				diffAttrs(x.TypeArgs().At(i), y.TypeArgs().At(i), out0, depth+1, targPrefix(sub))
 			}
 			return
 		}
@@ -368,6 +382,22 @@ func diffAttrs(x, y types.Type, out0 map[string]bool, depth int, pre string) {
 			out.set("basic-kind")
 			return
 		}
+	}
+	// a defined func type against its own underlying func type, or two defined func types over one func type
+	// (llgo's MatchesClosure identifies them at run time although their names differ)
+	sigOf := func(t types.Type) *types.Signature {
+		if n, ok := t.(*types.Named); ok {
+			s, _ := n.Underlying().(*types.Signature)
+			return s
+		}
+		s, _ := t.(*types.Signature)
+		return s
+	}
+	_, xn := x.(*types.Named)
+	_, yn := y.(*types.Named)
+	if sx, sy := sigOf(x), sigOf(y); sx != nil && sy != nil && (xn || yn) && types.Identical(sx, sy) {
+		out.set("named-func-vs-underlying")
+		return
 	}
 	out.set("kind")
 }
@@ -550,7 +580,12 @@ func main() {
 				diffAttrs(ta, tb, why, 0, "")
 			}
 		}
-		fmt.Fprintf(w, "pair %d %s %s %s %s%s %s | %s\n", i, b01(id), hx(na), hx(nb), keys(why), cmpFlags(ta, tb), s.term(ta), s.term(tb))
+		// the attributes two NON-identical types differ in, always (the end-to-end part classifies by them)
+		attrs := map[string]bool{}
+		if !id {
+			diffAttrs(ta, tb, attrs, 0, "")
+		}
+		fmt.Fprintf(w, "pair %d %s %s %s %s%s %s %s | %s\n", i, b01(id), hx(na), hx(nb), keys(why), cmpFlags(ta, tb), keys(attrs), s.term(ta), s.term(tb))
 	}
 	for _, i := range wi {
 		tt, ti := vars[fmt.Sprintf("W%dt", i)], vars[fmt.Sprintf("W%di", i)]
